@@ -156,3 +156,38 @@ def make_reply_mutator(spec, records):
         records.setdefault("reply_mutations", []).append({"block": rec.get("block"), "op": op})
         return "".join(out)
     return mutate
+
+
+def targeted_tampers(log_text, limit=3):
+    """Deterministic tamperings aimed at the operands of stores: in the first entries that contain a store id, the two ids in
+    front of it are exchanged (address and value swap, or another value reaches the store), and a PUSH id in front of it is
+    replaced by another PUSH id of the log.  Returns [(text, operator)]."""
+    try:
+        log = json.loads(log_text)
+    except ValueError:
+        return []
+    out = []
+    pushes = sorted({i for v in log.values() for i in v if i.startswith("PUSH")})
+    for k in sorted(log):
+        ids = log[k]
+        pos = [j for j, x in enumerate(ids) if re.match(r"(MSTORE8?|SSTORE)_\d+$", x)]
+        if not pos:
+            continue
+        j = pos[0]
+        if j >= 2 and ids[j - 1] != ids[j - 2]:
+            new = dict(log)
+            seq = list(ids)
+            seq[j - 1], seq[j - 2] = seq[j - 2], seq[j - 1]
+            new[k] = seq
+            out.append((json.dumps(new), "ids:swap_before_store"))
+        cand = [q for q in range(max(0, j - 3), j) if ids[q].startswith("PUSH")]
+        other = [p for p in pushes if cand and p != ids[cand[-1]]]
+        if cand and other:
+            new = dict(log)
+            seq = list(ids)
+            seq[cand[-1]] = other[0]
+            new[k] = seq
+            out.append((json.dumps(new), "ids:push_before_store"))
+        if len(out) >= limit:
+            break
+    return out[:limit]
